@@ -7,7 +7,7 @@ models/slots: X = an instance created at (pk=1, ck=1) and Y = one created at (pk
 with a partition key, a clustering key and scalar, static, set, list and map columns, Z = row pk=1 of
 a counter table.  A persisted instance can be moved: a new value is assigned to its clustering and/or
 partition key column (alone or together with other mutations) and it is saved; from then on the slot
-addresses the row under the instance's current key (locations (1,3), (2,1), (2,3) besides the two
+addresses the row under the instance's current key (locations (1,3), (2,1), (2,2), (2,3) besides the two
 home keys; two partitions, each with its own static column).
 
 Oracles, evaluated after every step:
@@ -30,12 +30,12 @@ META = {
     'level': 'model_checking',
     'engine': 'N',
     'technique': 'explicit-state search over cqlengine operation sequences with canonical-state deduplication; every step executed on an independent CQL interpreter and judged by read-back',
-    'text': 'Breadth-first search to depth 3 (quick) / 5 (thorough) over an alphabet of create / save / update / instance mutation / '
+    'text': 'Breadth-first search to depth 3 (quick) / 4 with the full alphabet and 5 with the quick alphabet less key assignment (thorough) over an alphabet of create / save / update / instance mutation / '
             'query-set update (every documented collection operator, with empty operands) / delete / conditional / batch / counter / reload / '
             'key assignment (a new value for the clustering key, the partition key or both on a persisted instance, alone or with other '
             'mutations, then save(), also inside a batch) '
             'operations on two instances of a model with a partition key, a clustering key and scalar, static, set, list and map columns '
-            '(five row locations in two partitions) and on a counter model. '
+            '(six row locations in two partitions) and on a counter model. '
             'States are (interpreter table content, per-slot instance values, previous values, explicit flags, sync flag) and are expanded once. '
             'Every explored trace is an execution of the real cqlengine code; the CQL it emits is parsed and applied by vt/spec/minicql.py.',
     'note': 'Trusted base: the cell semantics S1-S10 of vt/spec/minicql.py (listed in the evidence assumptions) and the fake session. '
@@ -48,7 +48,7 @@ T_R = ('ks', 'r')
 T_C = ('ks', 'c')
 COLS = ('st', 'v', 's', 'l', 'm')
 KEYS = {'X': (1, 1), 'Y': (1, 2)}           # home keys: where a slot's instance is created
-LOCS = ((1, 1), (1, 2), (1, 3), (2, 1), (2, 3))   # every (pk, ck) an instance can be moved to by key assignment + save
+LOCS = ((1, 1), (1, 2), (1, 3), (2, 1), (2, 2), (2, 3))   # every (pk, ck) an instance can be moved to by key assignment + save
 
 _w = {}
 
@@ -332,10 +332,8 @@ REKEYS = [
 ]
 QUICK_REKEY = [('ck=3', None), ('ck=3', 'v=7'), ('ck=3', 'v=None'), ('ck=3', 'combo'), ('pk=2', None), ('pk=2', 'combo-static'),
                ('pk=2,ck=3', 'l.append3')]
-FULL_REKEY = [('ck=3', m) for m in (None, 'v=7', 'v=None', 'st=b', 'st=None', 's.add3', 's=empty', 'l.append3', 'l.pop', 'm[3]=30',
-                                    'del m[1]', 'combo', 'combo-static')] + \
-             [('pk=2', m) for m in (None, 'v=None', 'st=None', 'combo', 'combo-static')] + \
-             [('pk=2,ck=3', None), ('pk=2,ck=3', 'l.append3'), ('pk=2,ck=3', 'combo'), ('pk=1', None)]
+FULL_REKEY = [('ck=3', m) for m in (None, 'v=7', 'v=None', 'st=None', 'del m[1]', 'combo')] + \
+             [('pk=2', None), ('pk=2', 'combo-static'), ('pk=2,ck=3', 'l.append3'), ('pk=1', None)]
 
 
 def _rekey_target(w, slot, assign, before):
@@ -343,6 +341,8 @@ def _rekey_target(w, slot, assign, before):
     i = w.inst[slot]
     cur = (i.pk, i.ck)
     new = (assign.get('pk', cur[0]), assign.get('ck', cur[1]))
+    if new not in LOCS:
+        raise HarnessError('key assignment %r moves instance %s to %r, which is not an enumerated location' % (assign, slot, new))
     if new == cur or w.loc_exists(new):
         return None                 # no move / an upsert over an existing row: not generated
     for other in ('X', 'Y'):
@@ -692,7 +692,13 @@ def op_counter(label):
     return ('Z.counter-%s' % label, fn)
 
 
-def alphabet(quick):
+def alphabet(kind):
+    """kind: 'quick' | 'full' | 'deep' (= the quick alphabet without the key-assignment operations, for the deepest search);
+    True / False are accepted for 'quick' / 'full'."""
+    kind = {True: 'quick', False: 'full'}.get(kind, kind)
+    if kind not in ('quick', 'full', 'deep'):
+        raise HarnessError('unknown alphabet %r' % (kind,))
+    quick = kind != 'full'
     models()
     ops = []
     full = {'v': 1, 's': {1, 2}, 'l': [1, 2], 'm': {1: 10, 2: 20}, 'st': 'a'}
@@ -707,7 +713,7 @@ def alphabet(quick):
         if not quick or mut[0] in QUICK_MUT_UPDATE:
             ops.append(op_mutate('X', mut, 'update'))
     rk = dict(REKEYS)
-    for label, mutname in (QUICK_REKEY if quick else FULL_REKEY):
+    for label, mutname in {'quick': QUICK_REKEY, 'full': FULL_REKEY, 'deep': ()}[kind]:
         ops.append(op_rekey('X', (label, rk[label]), mutname))
     ops.append(op_update_kw('X', 'v=None', {'v': None}))
     ops.append(op_update_kw('X', 'm={5:50}', {'m': {5: 50}}))
@@ -731,11 +737,11 @@ def alphabet(quick):
         ops.append(op_mutate('Y', [m for m in MUTATIONS if m[0] == 'v=7'][0], 'update'))
         ops.append(op_reload('Y'))
         ops.append(op_qs_update('Y', QS_UPDATES[0]))
-        ops.append(op_rekey('Y', ('ck=3', rk['ck=3']), None))
         ops.append(op_rekey('Y', ('pk=2', rk['pk=2']), 'v=7'))
     ops.append(op_batch('create X,Y', [('X', 'create', {'v': 1, 'm': {1: 10}}), ('Y', 'create', {'v': 2, 's': {2}})]))
     ops.append(op_batch('X combo, Y v=7', [('X', 'mutate', 'combo'), ('Y', 'mutate', 'v=7')]))
-    ops.append(op_batch('X ck=3, Y v=7', [('X', 'rekey', 'ck=3'), ('Y', 'mutate', 'v=7')]))
+    if kind != 'deep':
+        ops.append(op_batch('X ck=3, Y v=7', [('X', 'rekey', 'ck=3'), ('Y', 'mutate', 'v=7')]))
     if not quick:
         ops.append(op_batch('X delete, Y combo', [('X', 'delete', None), ('Y', 'mutate', 'combo')]))
     ops.append(op_counter('new'))
@@ -817,8 +823,8 @@ def expand(ops, seq, part, seen, frontier_out, order):
 
 def run_subtree(args):
     import time
-    quick, seqs, depth, order, deadline = args
-    ops = alphabet(quick)
+    kind, seqs, depth, order, deadline = args
+    ops = alphabet(kind)
     part = Part()
     seen = set()
     frontier = [tuple(s) for s in seqs]
@@ -827,8 +833,8 @@ def run_subtree(args):
         nxt = []
         for n, seq in enumerate(frontier):
             if deadline and time.time() > deadline:
-                part.count('capped_unexpanded_states_at_depth_%d_%s_alphabet' % (level + 1, 'quick' if quick else 'full'), len(frontier) - n)
-                part.count('capped_expanded_states_at_depth_%d_%s_alphabet' % (level + 1, 'quick' if quick else 'full'), n)
+                part.count('capped_unexpanded_states_at_depth_%d_%s_alphabet' % (level + 1, kind), len(frontier) - n)
+                part.count('capped_expanded_states_at_depth_%d_%s_alphabet' % (level + 1, kind), n)
                 part.hashes = seen
                 return part
             expand(ops, seq, part, seen, nxt, order)
@@ -838,8 +844,8 @@ def run_subtree(args):
     return part
 
 
-def search(ctx, quick_alphabet, depth, all_hashes, deadline):
-    ops = alphabet(quick_alphabet)
+def search(ctx, kind, depth, all_hashes, deadline):
+    ops = alphabet(kind)
     order = ctx.rotate(list(range(len(ops))))
     split_level = 2
     # levels 1..split_level in this process (global dedup), the rest in parallel per subtree
@@ -858,7 +864,7 @@ def search(ctx, quick_alphabet, depth, all_hashes, deadline):
     if depth > split_level and frontier:
         n = ctx.nproc * 8
         chunks = [frontier[i::n] for i in range(n)]
-        results = ctx.pmap(run_subtree, [(quick_alphabet, c, depth, order, deadline) for c in chunks if c])
+        results = ctx.pmap(run_subtree, [(kind, c, depth, order, deadline) for c in chunks if c])
         for p in results:
             all_hashes |= p.hashes
             p.counters.pop('states', None)     # states are counted once, over all subtrees and searches
@@ -872,23 +878,23 @@ def run(ctx):
     m['minicql'].selftest()
     all_hashes = set()
     if ctx.quick:
-        plan = [(True, 3)]
+        plan = [('quick', 3)]
     else:
-        plan = [(False, 4), (True, 5)]
+        plan = [('full', 4), ('deep', 5)]
     deadline = None if ctx.quick else time.time() + 540
     sizes = []
-    for quick_alphabet, depth in plan:
-        sizes.append((search(ctx, quick_alphabet, depth, all_hashes, deadline), depth))
+    for kind, depth in plan:
+        sizes.append((kind, search(ctx, kind, depth, all_hashes, deadline), depth))
     ctx.count('states', len(all_hashes))
     capped = sorted(k for k in ctx.counters if k.startswith('capped_unexpanded'))
     if capped:
         ctx.cap('wall-clock budget (540 s) reached: %s; every shallower level of each search is complete' % '; '.join(
             '%s = %d (expanded there: %d)' % (k, ctx.counters[k], ctx.counters.get(k.replace('unexpanded', 'expanded'), 0)) for k in capped))
-    ctx.cov['rule'] = ('searches (alphabet size, depth): %r; operations: %s; every enabled sequence up to the depth is executed from an empty table on the '
+    ctx.cov['rule'] = ('searches (alphabet, size, depth): %r; operations: %s; every enabled sequence up to the depth is executed from an empty table on the '
                        'real cqlengine code; a state (canonical table content + per instance values / previous values / explicit flags / sync flag) is '
                        'expanded once (globally up to depth 2, per worker subtree below; the state count is the union); executions = sequences; '
                        'evaluations = steps executed and judged; non-trivial = a sequence of at least two steps in which at least two statements '
-                       'reached the interpreter' % (sizes, ', '.join(n for n, _ in alphabet(not ctx.thorough))))
+                       'reached the interpreter' % (sizes, ', '.join(n for n, _ in alphabet('full' if ctx.thorough else 'quick'))))
     ctx.cov['exhaustive'] = not ctx.caps_hit
     for a in ASSUMPTIONS:
         ctx.assume(a)
@@ -923,8 +929,8 @@ ASSUMPTIONS = [
 
 
 def replay(ctx, data):
-    quick_ops = alphabet(True)
-    full_ops = alphabet(False)
+    quick_ops = alphabet('quick')
+    full_ops = alphabet('full')
     names = data['names']
     for ops in (quick_ops, full_ops):
         idx = dict((n, i) for i, (n, _) in enumerate(ops))
